@@ -263,3 +263,11 @@ class KeyedWalker(urwid.ListWalker):
         if i < self.fidx or self.fidx >= len(self.widgets):
             self.fidx = max(0, self.fidx - 1)
         self._modified()
+
+
+class FalsyRowSpy(RowSpy):
+    """a RowSpy that is FALSY although it has rows (like urwid.Columns([]) / GridFlow([]), or any user widget with
+    __len__ == 0): `if widget:` tests in the code under test take the wrong branch for it"""
+
+    def __len__(self):
+        return 0
